@@ -3475,8 +3475,8 @@ func (s *Store) ServiceDump(ws memdb.WatchSet, kind structs.ServiceKind, useKind
 }
 
 func serviceDumpAllTxn(tx ReadTxn, ws memdb.WatchSet, entMeta *acl.EnterpriseMeta, peerName string) (uint64, structs.CheckServiceNodes, error) {
-	// Get the table index
-	idx := catalogMaxIndexWatch(tx, ws, entMeta, "", true)
+	// Get the table index (of the peer whose services are dumped)
+	idx := catalogMaxIndexWatch(tx, ws, entMeta, peerName, true)
 
 	if entMeta == nil {
 		entMeta = structs.DefaultEnterpriseMetaInDefaultPartition()
